@@ -164,14 +164,30 @@ pub fn run(desc: &Value, ctx: &Ctx) -> CaseOut {
                                 let by_uuid = cp.get_pack_reader(&u).ok_or(format!("no reader for uuid {u}"))?;
                                 // what the reader handed out opens as a pack with that uuid; its kind comes from the decoder
                                 let kind = v.packs.iter().find(|pk| pk.hdr.uuid == *u.as_bytes()).map(|pk| pk.hdr.kind).unwrap_or(0);
+                                let hdr = v.packs.iter().find(|pk| pk.hdr.uuid == *u.as_bytes()).map(|pk| pk.hdr.clone());
                                 let open = |r: jubako::Reader| -> Result<(uuid::Uuid, u64), String> {
                                     use jubako::Pack as _;
-                                    Ok(match kind {
-                                        b'm' => { let p = jubako::reader::ManifestPack::new(r).map_err(|e| e.to_string())?; (p.uuid(), p.size().into_u64()) }
-                                        b'd' => { let p = jubako::reader::DirectoryPack::new(r).map_err(|e| e.to_string())?; (p.uuid(), p.size().into_u64()) }
-                                        b'c' => { let p = jubako::reader::ContentPack::new(r).map_err(|e| e.to_string())?; (p.uuid(), p.size().into_u64()) }
+                                    // (uuid, size, kind name, vendor id, version) as the opened pack reports them
+                                    let (uu, size, k, vendor, version) = match kind {
+                                        b'm' => { let p = jubako::reader::ManifestPack::new(r).map_err(|e| e.to_string())?; (p.uuid(), p.size().into_u64(), format!("{:?}", p.kind()), format!("{:?}", p.app_vendor_id()), p.version()) }
+                                        b'd' => { let p = jubako::reader::DirectoryPack::new(r).map_err(|e| e.to_string())?; (p.uuid(), p.size().into_u64(), format!("{:?}", p.kind()), format!("{:?}", p.app_vendor_id()), p.version()) }
+                                        b'c' => { let p = jubako::reader::ContentPack::new(r).map_err(|e| e.to_string())?; (p.uuid(), p.size().into_u64(), format!("{:?}", p.kind()), format!("{:?}", p.app_vendor_id()), p.version()) }
                                         _ => return Err(format!("pack index {i}: uuid {u} is not a pack the independent decoder found")),
-                                    })
+                                    };
+                                    let want_kind = match kind { b'm' => "Manifest", b'd' => "Directory", _ => "Content" };
+                                    if k != want_kind {
+                                        return Err(format!("pack {u}: kind() = {k}, the header says {want_kind}"));
+                                    }
+                                    if let Some(h) = &hdr {
+                                        if version != (h.major, h.minor) {
+                                            return Err(format!("pack {u}: version() = {version:?}, the header says {:?}", (h.major, h.minor)));
+                                        }
+                                        let want_vendor = format!("{:?}", crate::content::vendor());
+                                        if vendor != want_vendor {
+                                            return Err(format!("pack {u}: app_vendor_id() = {vendor}, {want_vendor} was given (header bytes {:?})", h.vendor));
+                                        }
+                                    }
+                                    Ok((uu, size))
                                 };
                                 let a = open(by_idx)?;
                                 let b = open(by_uuid)?;
